@@ -22,10 +22,12 @@ var (
 	fMaxV   = flag.Int("sim.maxviol", 3, "violations kept per signature")
 	fBudget = flag.Duration("sim.budget", 0, "wall-clock budget")
 	fSeed   = flag.Uint64("sim.seed", 0, "run seed (log mode)")
+	fDeep   = flag.Bool("sim.deep", false, "thorough tier: wider exploration policy ranges")
 )
 
 // TestSim is the single entry point of the simulation binary; the parent driver selects the mode.
 func TestSim(t *testing.T) {
+	Deep = *fDeep
 	switch *fMode {
 	case "":
 		t.Skip("no -sim.mode given")
